@@ -48,6 +48,10 @@ def gen_stream(tier, seed, known, fams=()):
     # pool-capacity and oversize boundaries (generated big words)
     big = [("G", 900000, 1), ("G", 60000, 2), ("G", 60000, 3), ("G", 65536, 4), ("G", 65537, 5),
            ("G", 30000, 6), ("G", 30000, 6), ("G", 70000, 7), ("G", 5000, 8), ("G", 65535, 9)]
+    # words of 64 KiB .. 1 MiB whose length is 9..15 modulo 16 (the last header of the word is only partly used), asked for when the
+    # current pool is nearly full, each followed by a short word and asked for again
+    big[1:1] = [("G", 100009, 50), ("G", 40, 53), ("G", 100009, 50), ("G", 70013, 51), ("G", 24, 54), ("G", 70013, 51),
+                ("G", 200015, 52), ("G", 9, 55), ("G", 200015, 52), ("G", 524299, 56), ("G", 17, 57), ("G", 524299, 56)]
     # words around the size from which a word gets a pool of its own (1 MiB minus the length prefix)
     big += [("G", 1048567, 30), ("G", 1048568, 31), ("G", 1048569, 32), ("G", 1048572, 33), ("G", 1048576, 34), ("G", 1048577, 35), ("G", 40, 36)]
     if tier != "quick":
